@@ -47,6 +47,12 @@ NAME_FILES = ("src/modules/", "src/eckey_impl.h", "src/ecdsa_impl.h", "src/eccom
 UTILITY = re.compile(r"context_is_|declassify|get_hash_context|_clear$|memclear|memczero|callback|_cmov$|is_zero_array|_count_bits|read_be|write_be")
 
 
+CHK_SKIP = re.compile(r"context_is_|declassify|callback|^mem|sha256")
+# internal entry points that a property observes although they are not exported (the BP++ norm argument is reached only
+# through the tests in this fork)
+EXTRA_ROOTS = ("secp256k1_bppp_rangeproof_norm_product_verify", "secp256k1_bppp_rangeproof_norm_product_prove", "secp256k1_bppp_commit")
+
+
 def families_of_name(n):
     return {fam for fam, rx in FAMILIES if rx.search(n)}
 
@@ -103,6 +109,25 @@ class Must:
             return True
         return False
 
+    @staticmethod
+    def param_root(f, a):
+        """Index of the parameter of f that argument a is (rooted in), else None."""
+        r = lvalue_root(a)
+        if r is None:
+            r = strip(a)
+        for _ in range(3):
+            if kind(r) != "var":
+                return None
+            if r[1] in f.param_index:
+                return f.param_index[r[1]]
+            # a local with a single definition that is just (an lvalue of) a parameter stands for it: `h_len = c_vec_len`
+            ds = [rhs for el in f.elems() for (n, op, rhs, via) in defs_in_elem(el.e) if n == r[1]]
+            if len(ds) != 1 or ds[0] is None:
+                return None
+            r2 = lvalue_root(ds[0])
+            r = r2 if r2 is not None else strip(ds[0])
+        return None
+
     def arg_ctx(self, args, Z, zx, NZ, nparams):
         ctx = []
         for i in range(nparams):
@@ -140,7 +165,21 @@ class Must:
             k2 = (n, actx)
             if k2 not in callfam:
                 callfam[k2] = self.must(n, actx, depth + 1)
-            return callfam[k2]
+            res = callfam[k2]
+            if any(x.startswith("chk:") for x in res):
+                # predicate entries name the callee's parameters: translate through this call's arguments
+                out = set()
+                for x in res:
+                    mm = re.match(r"chk:(\w+)\(p(\d+)\)$", x)
+                    if not mm:
+                        out.add(x)
+                        continue
+                    k = int(mm.group(2))
+                    j = self.param_root(f, c[3][k]) if k < len(c[3]) else None
+                    if j is not None:
+                        out.add("chk:%s(p%d)" % (mm.group(1), j))
+                res = frozenset(out)
+            return res
 
         states = {}          # (block, Z, zx, NZ) -> must set at block entry
         work = []
@@ -165,11 +204,29 @@ class Must:
             Z, zx, NZ = set(Z), set(zx), set(NZ)
             b = f.blocks[bid]
             returned = False
+            cond_calls = {id(x) for x in calls_in(b.cond)} if b.cond is not None else set()
+            cond_call_keys = {(callee_name(x), x[2]) for x in calls_in(b.cond)} if b.cond is not None else set()
+            for el in b.elems:
+                if el.top and kind(el.e) == "return" and el.e[1] is not None:
+                    # `return pred(..);` — the predicate is the verdict itself (what an extracted helper turns a test into)
+                    cond_call_keys |= {(callee_name(x), x[2]) for x in calls_in(el.e[1])}
+                elif el.top:
+                    # `ret = pred(..)`, `ret &= pred(..)`: the verdict variable idiom
+                    for (v_, op_, rhs_, via_) in defs_in_elem(el.e):
+                        if via_ in ("assign", "decl") and rhs_ is not None and f.vars.get(v_, {}).get("int_bits"):
+                            cond_call_keys |= {(callee_name(x), x[2]) for x in calls_in(rhs_)}
             for el in b.elems:
                 e = strip(el.e)
                 k = kind(e)
                 if k == "call" and callee_name(e):
                     m |= fam_of_call(e, Z, zx, NZ)
+                    if (callee_name(e), e[2]) in cond_call_keys and not CHK_SKIP.search(callee_name(e)):
+                        # a predicate evaluated as (part of) a branch condition, on something rooted in a parameter:
+                        # `if (!is_power_of_two(g_len) || !is_power_of_two(h_len))` yields one entry per tested parameter
+                        for a in e[3]:
+                            j = self.param_root(f, a)
+                            if j is not None and not (j < len(f.params) and any(t in f.params[j]["type"] for t in ("context", "hash_ctx", "callback"))):
+                                m.add("chk:%s(p%d)" % (fold_variant(callee_name(e)), j))
                 if k == "bin" and e[1] in ("&&", "&") and self.zero(e, Z, zx):
                     zx.add(repr(e))
                 if not el.top:
@@ -185,6 +242,24 @@ class Must:
                     acc[el.loc] = (el, frozenset(m) if old is None else (old[1] & frozenset(m)))
                     break
                 for (v, op, rhs, via) in defs_in_elem(el.e):
+                    # small integer constants (loop counters): carried in NZ as "name=K" so that `for (i = 0; i < 2; i++)`
+                    # is unrolled by the partitioning and its body counts as executed
+                    kc = [x for x in NZ if x.startswith(v + "=")]
+                    for x in kc:
+                        NZ.discard(x)
+                    if via in ("assign", "decl") and op == "=" and rhs is not None and is_int(rhs) and 0 <= int_val(rhs) <= 2:
+                        NZ.add("%s=%d" % (v, int_val(rhs)))
+                    elif via == "incdec" and kc:
+                        d_ = 0
+                        for x in walk(el.e):
+                            if kind(x) == "incdec" and kind(strip(x[3])) == "var" and strip(x[3])[1] == v:
+                                d_ = 1 if x[1] == "++" else -1
+                        nk = int(kc[0].split("=")[1]) + d_
+                        if d_ and 0 <= nk <= 2:             # enough for the two-nonce loops; larger bounds are not unrolled
+                            NZ.add("%s=%d" % (v, nk))
+                            (Z.add if nk == 0 else Z.discard)(v)
+                            (NZ.discard if nk == 0 else NZ.add)(v)
+                            continue
                     if via in ("assign", "decl") and op == "=" and rhs is not None and self.zero(rhs, Z, zx):
                         Z.add(v)
                         NZ.discard(v)
@@ -201,7 +276,8 @@ class Must:
                     else:
                         Z.discard(v)
                         NZ.discard(v)
-                zx = set()                            # expression facts do not outlive the statement
+                if b.cond is None or el.e != b.cond:
+                    zx = set()                        # expression facts do not outlive the statement (the branch condition itself reads them)
             if returned or not b.succs:
                 continue
             c = b.cond
@@ -226,10 +302,31 @@ class Must:
                 cs = other
             is_zero = self.zero(cs, Z, zx)
             is_nz = self.nonzero(cs, NZ)
+            known = None
+            cw = strip(c)
+            if kind(cw) == "bin" and cw[1] == "||" and any(("T:" + repr(strip(x))) in zx for x in (cw[2], cw[3])):
+                known = not neg          # `A || B` as written is true when we arrive from the true edge of A; cs is its un-negated core
+                if neg:
+                    known = None
+            if kind(cs) == "bin" and cs[1] in ("<", "<=", ">", ">=", "==", "!="):
+                def cv(x):
+                    x = strip(x)
+                    if is_int(x):
+                        return int_val(x)
+                    if kind(x) == "var":
+                        for y in NZ:
+                            if y.startswith(x[1] + "="):
+                                return int(y.split("=")[1])
+                    return None
+                a_, b_ = cv(cs[2]), cv(cs[3])
+                if a_ is not None and b_ is not None:
+                    known = {"<": a_ < b_, "<=": a_ <= b_, ">": a_ > b_, ">=": a_ >= b_, "==": a_ == b_, "!=": a_ != b_}[cs[1]]
             for s_, pol in edges:
                 if s_ is None:
                     continue
                 truthy = (pol is True) != neg         # value of the un-negated cs on this edge
+                if known is not None and truthy != known:
+                    continue
                 if truthy and is_zero:
                     continue
                 if (not truthy) and is_nz:
@@ -246,6 +343,8 @@ class Must:
                     zx2.add(repr(cs))
                 if pol is False:
                     zx2.add(repr(strip(c)))          # the branch condition as written (negations included) is 0 on its false edge
+                elif pol is True and b.term and b.term.get("kind") == "Logical||":
+                    zx2.add("T:" + repr(strip(c)))   # ... and the enclosing `||` is decided
                 push(s_, frozenset(Z2), frozenset(zx2), frozenset(N2), frozenset(m))
         sets = [mm for (_, mm) in acc.values()] + fall
         res = frozenset(set.intersection(*[set(x) for x in sets])) if sets else frozenset()
@@ -258,7 +357,8 @@ class Must:
 def compute(prog, frozen_names=()):
     mu = Must(prog, frozen_names)
     out = {}
-    for f in sorted(prog.exported(), key=lambda x: x.name):
+    roots = list(prog.exported()) + [prog.functions[n] for n in EXTRA_ROOTS if n in prog.functions]
+    for f in sorted(roots, key=lambda x: x.name):
         if not f.blocks:
             continue
         out[f.name] = sorted(mu.must(f.name))
